@@ -80,7 +80,7 @@ theorem Reach.perm {g g' : Graph} (hp : g.Perm g') {a b : Nat} (h : Reach g a b)
   | refl => exact Reach.refl _
   | tail _ h2 ih => exact Reach.tail ih (h2.perm hp)
 
-theorem children_perm {g g' : Graph} (hp : g.Perm g') (p y : Nat) :
+theorem mem_children_perm {g g' : Graph} (hp : g.Perm g') (p y : Nat) :
     y ∈ children g p ↔ y ∈ children g' p := by
   rw [mem_children, mem_children]
   exact ⟨fun h => h.perm hp, fun h => h.perm hp.symm⟩
@@ -100,6 +100,6 @@ theorem refBraid_perm_graph {g g' : Graph} (hw : WF g) (hw' : WF g') (hp : g.Per
   cases addAvail g' [] hs with
   | error e => rfl
   | ok a =>
-    exact braidLoop_congr hf (children_perm hp) (ancSelfAll_perm hw hw' hp hs) _ _
+    exact braidLoop_congr hf (mem_children_perm hp) (ancSelfAll_perm hw hw' hp hs) _ _
 
 end AranyaV.Spec
